@@ -212,3 +212,23 @@ func VerifC07_ExtensionLines() {
 	}
 	verifAssert(p.Canonical == (text == verifSpecEncoding(p)), "Canonical is reported exactly for the canonical encoding")
 }
+
+// VerifC07_SizeLine: a pointer whose size is any string of up to 20 digits is
+// either rejected or has exactly that non-negative value.
+func VerifC07_SizeLine() {
+	oid := verifNondetString("oid")
+	verifAssumeAlphabet(oid, "09af")
+	verifAssume(len(oid) == 64)
+	size := verifNondetString("size")
+	verifAssumeAlphabet(size, "09")
+	verifAssume(len(size) >= 1 && len(size) <= 20)
+	text := "version https://git-lfs.github.com/spec/v1\noid sha256:" + oid + "\nsize " + size + "\n"
+	p, err := DecodePointer(bytes.NewReader([]byte(text)))
+	if err != nil {
+		verifCover("size-rejected")
+		return
+	}
+	verifCover("size-accepted")
+	verifAssert(p.Size >= 0, "size is non-negative")
+	verifAssert(p.Size == verifDecimalValue(size), "size is the decimal value of its text")
+}
